@@ -9,7 +9,8 @@ Space (every member is visited, nothing sampled)
             (models.grammar.family_split): roll-back between alternatives with children already collected.
   seq     : directed family "sequence under roll-back" (models.grammar.family_seq): a ProdSequence symbol
             over 1-2 terminals or a non-terminal, 2-3 alternatives of E mixing it with leading / trailing
-            terminals.  A sequence node carries its matched elements as a list; they are its children.
+            terminals; also with a factorized symbol (common-prefix alternatives, suffix symbol kept) as
+            item.  A sequence node carries its matched elements as a list; they are its children.
   blank   : sized space over the terminals a, SPACE x the constructor option skip_tokens in
             {None, set(), [], (), {SPACE}, {COMMENT}, [SPACE, COMMENT]}; tokenizer with SPACE and COMMENT
             groups, blanks and comments written explicitly into the texts.  The leaves must be the tokens
@@ -18,6 +19,8 @@ Space (every member is visited, nothing sampled)
             span_matchers) and six tiny grammars over a / TEXT; the token values run over all strings of
             <= 2 pieces of {p, blank, newline, form feed, \x0b, \x1c-\x1e, \x85, U+2028, U+2029, lone \r}:
             the leaf value must be the value the harness put between the marks.
+            Histories of two calls on ONE parser object: a text whose span is never closed (LexicalError),
+            then every valid text of <= 1 token; the second tree is judged like a fresh parser's.
   diverge : directed family "three alternatives with one first symbol, non-monotone divergence"
             (models.grammar.family_diverge), all six orders.
   prefix  : directed family for factorization (models.grammar.family_prefix): common prefixes of length
@@ -77,7 +80,9 @@ REQUIRED_FEATURES = ["grammar:nullable", "grammar:ambiguous-table", "grammar:com
                      "config:skip_tokens-empty:tree-with-blank-or-comment-leaf",
                      "grammar:non-monotone-divergence-in-a-group",
                      "span:multi-line-value-among-the-leaves",
-                     "span:value-with-exotic-line-boundary-character"]
+                     "span:value-with-exotic-line-boundary-character",
+                     "sequence:item-parsed-through-kept-suffix-symbol",
+                     "history:first-call-LexicalError", "history:failed-span-then-valid-text:tree"]
 
 _SPACES = {
     # (kind, non-terminals, cfg key, max_alts, max_len, max_size, input length, shards)
@@ -167,8 +172,19 @@ def shards(tier):
 _ABSENT = "absent"      # the constructor argument skip_tokens is not given at all
 
 
+def _has_node(shape, names):
+    name, v = shape
+    if name in names:
+        return True
+    return isinstance(v, tuple) and any(_has_node(c, names) for c in v)
+
+
+# texts whose span token is never closed (the tokenizer raises LexicalError)
+_BAD_SPAN_TEXTS = ("<<", "a <<p", "<<p\nq a")
+
+
 def check_grammar(cfg, start, prods, inputs, acc, modes=(True, False), overrides=(), only_start=False,
-                  skip=_ABSENT):
+                  skip=_ABSENT, after_bad=None):
     """One case.  ``overrides``: non-terminals additionally handed to parse as ``start_symbol_name``
     (every input again); ``only_start``: replay of one recorded parse (no default-start loop when the
     recorded parse used an override); ``skip``: value of the constructor argument skip_tokens (a member of
@@ -189,6 +205,7 @@ def check_grammar(cfg, start, prods, inputs, acc, modes=(True, False), overrides
     if cfg.key == "kw":
         feats.add("cfg:keywords-synonyms")
     chain = G.chain_nullables(pm) if overrides else set()
+    fresh = {}          # span space: verdict of a fresh parser per input (for the 2-call histories)
     nontrivial = False
     verdicts = {}
     built = set()
@@ -223,6 +240,14 @@ def check_grammar(cfg, start, prods, inputs, acc, modes=(True, False), overrides
                 pmaps[smart] = {x: [tuple(r.production) for r in rr] for x, rr in p.prods_map.items()}
             except Exception:  # noqa  (statistics only)
                 pass
+            # sequence items that are factorized symbols whose suffix symbol is kept in this mode
+            kept_items = set()
+            if seqs:
+                try:
+                    kept_items = {x for els in seqs.values() for x in els if x in pm
+                                  and any(sfx.startswith(x + "__S") for sfx in p._suffix_symbols)}
+                except Exception:  # noqa
+                    pass
             verdict = []
             for pstart in starts:
                 root_symbol = start if pstart is None else pstart
@@ -233,6 +258,8 @@ def check_grammar(cfg, start, prods, inputs, acc, modes=(True, False), overrides
                     except H.Abort:
                         r, root = "abort:watchdog", None
                     acc.trans()
+                    if after_bad is None and cfg.key == "span" and pstart is None and len(toks) <= 1:
+                        fresh[toks] = r
                     if r != "tree":
                         feats.add(tag + r)
                         if pstart is None:
@@ -262,6 +289,8 @@ def check_grammar(cfg, start, prods, inputs, acc, modes=(True, False), overrides
                             if any(c in vals for c in G.EXOTIC_LINE_ENDS):
                                 feats.add("span:value-with-exotic-line-boundary-character")
                                 acc.note_sum("trees_with_exotic_line_boundary_in_a_span_value")
+                        if kept_items and mon.suffix_pushes and _has_node(G.tree_shape(root), kept_items):
+                            feats.add("sequence:item-parsed-through-kept-suffix-symbol")
                         if seqs and mon.rollbacks:
                             feats.add("sequence:tree-after-rollback")
                             if mon.sequence_reentered_after_rollback():
@@ -300,6 +329,35 @@ def check_grammar(cfg, start, prods, inputs, acc, modes=(True, False), overrides
                                       repr(shape), f"a derivation tree rooted at {root_symbol} whose leaves are "
                                       + repr([list(t) for t in expected]))
             verdicts[smart] = "".join(verdict)
+            # ---- span space: a parse that FAILS with "span is never closed", then a valid text on the same
+            # parser object; the second call is judged like a call on a fresh parser
+            if cfg.key == "span" and not only_start:
+                bads = _BAD_SPAN_TEXTS if after_bad is None else (after_bad,)
+                seconds = sorted(fresh) if after_bad is None else list(inputs)
+                for bad_text in bads:
+                    for toks in seconds:
+                        res2, p2 = H.build(cfg, start, prods, smart)
+                        acc.trans()
+                        if res2 != "ok":
+                            break
+                        r1, _ = H.parse(p2, cfg, (), raw_text=bad_text)
+                        r, root = H.parse(p2, cfg, toks)
+                        acc.trans(2)
+                        feats.add("history:first-call-" + r1)
+                        feats.add("history:failed-span-then-valid-text:" + r)
+                        if r != "tree":
+                            continue
+                        n_valid += 1
+                        bad = G.validate_tree(root, pm, terms, start, toks, seqs)
+                        if bad is not None:
+                            case = G.to_case(cfg, start, prods, smart=smart, input=[list(t) for t in toks],
+                                             after_bad_text=bad_text)
+                            acc.violation("C01:" + bad[0] + ":after-failed-parse-on-the-same-parser", case,
+                                          f"after parse({bad_text!r}) failed with {r1} on the same parser object, "
+                                          f"parse({cfg.text(toks)!r}) returned a tree that is not a derivation of "
+                                          f"the user grammar {G.show(prods)} (smart_factorization={smart}): "
+                                          f"{bad[1]}", repr(G.tree_shape(root)),
+                                          "the tree a fresh parser returns: leaves " + repr([list(t) for t in toks]))
     if len(pmaps) == 2 and pmaps[True] != pmaps[False]:
         feats.add("grammar:modes-differ-in-productions")
     if len(verdicts) == 2 and verdicts[True] != verdicts[False]:
@@ -366,6 +424,11 @@ def replay(case, acc):
     cfg, start, prods = G.from_case(case)
     inputs = [tuple(tuple(t) for t in case["input"])]
     ps = case.get("parse_start")
+    if case.get("after_bad_text") is not None:
+        feats, nt, out, n_valid = check_grammar(cfg, start, prods, inputs, acc, modes=(case["smart"],),
+                                                after_bad=case["after_bad_text"])
+        acc.case(nontrivial=nt, features=feats, outcome=out, traces=n_valid)
+        return
     feats, nt, out, n_valid = check_grammar(cfg, start, prods, inputs, acc, modes=(case["smart"],),
                                             overrides=(ps,) if ps else (), only_start=bool(ps),
                                             skip=case.get("skip", _ABSENT) if "skip" in case else _ABSENT)
